@@ -35,7 +35,7 @@ def gen(seed, tier):
     rng = random.Random(seed)
     out = []
     for sh in shapes(4, 3):
-        per_shape(sh, out, tys=("i32", "str") if len(sh) <= 3 else ("i32",))
+        per_shape(sh, out, tys=("i32", "str", "list", "pair", "f32", "u64") if len(sh) <= 3 else ("i32", "pair"))
     for sh in shapes(5, 2, min_rank=5):
         per_shape(sh, out)
     # shapes with a zero-length axis: everything must be an error
